@@ -132,6 +132,24 @@ EXTRA = {
     "C20": " Round 3 adds two shape clauses about order statistics: median_in_place reads its middle positions from a totally sorted slice (R5); benjamini_hochberg sorts and then scans EVERY ordered p-value keeping the largest passing rank, with no exit before the scan except for empty input (R6). Numerical exactness remains undecided.",
 }
 
+EXTRA2 = {
+    "C01": " Round 4/5: checked insertion entry points verify the layout or forward to a checked one (R10); a checked entry point and its `_unchecked` twin differ only by that verification (R11).",
+    "C02": " Round 4: builder steps carry every option on (R13); the free-list head only ever takes a vacated or vacant index (R14).",
+    "C04": " Round 4: RefCell-protected pool state is reached only through borrow guards (R6).",
+    "C05": " Round 4/5: the cell accessors (poll_set / destroy_value / destroy_awaiter) are judged by the state observed at their call site whether they exist as helpers or are written out.",
+    "C06": " Round 4: receiver Drop reaches final_poll on every path and releases unless its result is Ok(None); sender Drop likewise; nothing uses the event reference after the storage was given back.",
+    "C07": " Round 4: the same receiver/sender Drop endpoint rules on the single-threaded endpoints.",
+    "C08": " Round 4/5: the manual-reset flag word is only written bit-wise (R11); the awaiter's lifecycle byte is stored release-ish and read acquire-ish where NOTIFIED/registration is acted upon.",
+    "C09": " Round 4: every ProcessorSet -> builder conversion restricts the source; membership is tested by id over all processors (R9).",
+    "C10": " Round 4: pin-state lookups scan all entries of the per-thread table; the fake platform's pin overwrites (R8).",
+    "C13": " Round 4: one install door for regional values; regional states are born empty (R9).",
+    "C14": " Round 4: the per-processor table is sized by the id space and the shutdown broadcast is unconditional (R8).",
+    "C15": " Round 4: each deque wakes its own parent cell (R7).",
+    "C16": " Round 4: the overflow subtraction is clamped; the bucket write is skipped only when there are no buckets or no bucket matches; each batch is merged from its own bag (R7).",
+    "C18": " Round 4: reports merge spans only on the occupied side (R5b).",
+    "C19": " Round 4: only the temporary path is ever opened for writing (R1).",
+}
+
 PENDING = "static check not implemented yet in this round (planned, see DESIGN.md section 5); not claimed until it exists"
 
 ALL = [f"C{i:02d}" for i in range(1, 21)]
@@ -143,7 +161,7 @@ def main():
         if pid not in CLAIMS:
             continue
         tech, text, note, ref = CLAIMS[pid]
-        text = text + EXTRA.get(pid, "")
+        text = text + EXTRA.get(pid, "") + EXTRA2.get(pid, "")
         note = note + " Names, parameter order and field names of the analysed tree are mapped back to the committed baseline vocabulary (vf/baseline.json) where unambiguous; new private helpers are inlined into their callers before the rules run."
         checks.append({
             "property_id": pid,
